@@ -82,6 +82,9 @@ Inductive ast :=
 | AFinal                              (* the coroutine's Result is stored; final_suspend's / Drop's exchange is next *)
 | ADone.
 
+(* how the body ended *)
+Inductive cend_t := Running | Returned (r : res) | Threw (e : res) | Dropped.
+
 Record obj := {
   oshared : bool;                     (* SharedCore / UniqueCore *)
   olazy : bool;                       (* a Task: nothing happens before it is started *)
@@ -118,7 +121,7 @@ Record coro := {
   ldtors : nat;
   fowner : bool;                      (* somebody still owns the coroutine's core (the returned Future) *)
   ffrees : nat;                       (* destructions of the frame *)
-  dropped : bool;
+  cend : cend_t;                      (* co_return r / an exception escaped / an executor dropped it *)
   resumes : list rrec;
   readys : list (bool * bool)         (* every await_ready of a single form: (answer, the result was published) *)
 }.
@@ -140,7 +143,7 @@ Definition mk_obj (x : ospec) : obj :=
      oexec := s_exec x; othr := None; oprod := s_prod x |}.
 Definition mk_coro (x : cspec) : coro :=
   {| prog := s_prog x; own := s_own x; pc := 0; cst := AIdle; on := 0; cexec := 0; cown0 := 0; cnt := 0;
-     llive := true; ldtors := 0; fowner := true; ffrees := 0; dropped := false; resumes := []; readys := [] |}.
+     llive := true; ldtors := 0; fowner := true; ffrees := 0; cend := Running; resumes := []; readys := [] |}.
 Definition init (os : list ospec) (cs : list cspec) (nx : nat) : st :=
   {| objs := map mk_obj os; cos := map mk_coro cs; qs := repeat [] nx; stk := [] |}.
 
@@ -237,35 +240,36 @@ Definition o_exchange (t : nat) (o : obj) : obj :=
 (* coroutine setters *)
 Definition set_cst x c := {| prog := prog c; own := own c; pc := pc c; cst := x; on := on c; cexec := cexec c;
   cown0 := cown0 c; cnt := cnt c; llive := llive c; ldtors := ldtors c; fowner := fowner c; ffrees := ffrees c;
-  dropped := dropped c; resumes := resumes c; readys := readys c |}.
+  cend := cend c; resumes := resumes c; readys := readys c |}.
 Definition set_on x c := {| prog := prog c; own := own c; pc := pc c; cst := cst c; on := x; cexec := cexec c;
   cown0 := cown0 c; cnt := cnt c; llive := llive c; ldtors := ldtors c; fowner := fowner c; ffrees := ffrees c;
-  dropped := dropped c; resumes := resumes c; readys := readys c |}.
+  cend := cend c; resumes := resumes c; readys := readys c |}.
 Definition set_cexec x c := {| prog := prog c; own := own c; pc := pc c; cst := cst c; on := on c; cexec := x;
   cown0 := cown0 c; cnt := cnt c; llive := llive c; ldtors := ldtors c; fowner := fowner c; ffrees := ffrees c;
-  dropped := dropped c; resumes := resumes c; readys := readys c |}.
+  cend := cend c; resumes := resumes c; readys := readys c |}.
 Definition set_cown0 x c := {| prog := prog c; own := own c; pc := pc c; cst := cst c; on := on c; cexec := cexec c;
   cown0 := x; cnt := cnt c; llive := llive c; ldtors := ldtors c; fowner := fowner c; ffrees := ffrees c;
-  dropped := dropped c; resumes := resumes c; readys := readys c |}.
+  cend := cend c; resumes := resumes c; readys := readys c |}.
 Definition set_cnt x c := {| prog := prog c; own := own c; pc := pc c; cst := cst c; on := on c; cexec := cexec c;
   cown0 := cown0 c; cnt := x; llive := llive c; ldtors := ldtors c; fowner := fowner c; ffrees := ffrees c;
-  dropped := dropped c; resumes := resumes c; readys := readys c |}.
+  cend := cend c; resumes := resumes c; readys := readys c |}.
 Definition set_readys x c := {| prog := prog c; own := own c; pc := pc c; cst := cst c; on := on c; cexec := cexec c;
   cown0 := cown0 c; cnt := cnt c; llive := llive c; ldtors := ldtors c; fowner := fowner c; ffrees := ffrees c;
-  dropped := dropped c; resumes := resumes c; readys := x |}.
-Definition set_dropped x c := {| prog := prog c; own := own c; pc := pc c; cst := cst c; on := on c; cexec := cexec c;
+  cend := cend c; resumes := resumes c; readys := x |}.
+Definition set_cend x c := {| prog := prog c; own := own c; pc := pc c; cst := cst c; on := on c; cexec := cexec c;
   cown0 := cown0 c; cnt := cnt c; llive := llive c; ldtors := ldtors c; fowner := fowner c; ffrees := ffrees c;
-  dropped := x; resumes := resumes c; readys := readys c |}.
+  cend := x; resumes := resumes c; readys := readys c |}.
+Definition dropped (c : coro) : bool := match cend c with Dropped => true | _ => false end.
 Definition local_dtor c := {| prog := prog c; own := own c; pc := pc c; cst := cst c; on := on c; cexec := cexec c;
   cown0 := cown0 c; cnt := cnt c; llive := false; ldtors := S (ldtors c); fowner := fowner c; ffrees := ffrees c;
-  dropped := dropped c; resumes := resumes c; readys := readys c |}.
+  cend := cend c; resumes := resumes c; readys := readys c |}.
 Definition frame_free c := {| prog := prog c; own := own c; pc := pc c; cst := cst c; on := on c; cexec := cexec c;
   cown0 := cown0 c; cnt := cnt c; llive := llive c; ldtors := ldtors c; fowner := false; ffrees := S (ffrees c);
-  dropped := dropped c; resumes := resumes c; readys := readys c |}.
+  cend := cend c; resumes := resumes c; readys := readys c |}.
 (* past the co_await: one more record, next statement *)
 Definition resumed (r : rrec) (x : ast) c := {| prog := prog c; own := own c; pc := S (pc c); cst := x; on := on c;
   cexec := cexec c; cown0 := cown0 c; cnt := cnt c; llive := llive c; ldtors := ldtors c; fowner := fowner c;
-  ffrees := ffrees c; dropped := dropped c; resumes := resumes c ++ [r]; readys := readys c |}.
+  ffrees := ffrees c; cend := cend c; resumes := resumes c ++ [r]; readys := readys c |}.
 
 Definition set_objs x s := {| objs := x; cos := cos s; qs := qs s; stk := stk s |}.
 Definition set_cos x s := {| objs := objs s; cos := x; qs := qs s; stk := stk s |}.
@@ -401,7 +405,7 @@ Definition finish_await (t c : nat) (h : how) (s : st) : option st :=
           match aconsume a, match v with Some x => is_err x | None => None end with
           | Some (_, false), Some e =>
               (* await_resume throws, nothing catches: unhandled_exception stores it, final_suspend is next *)
-              store_own c e (set_co c (resumed r AFinal (set_on t co)) s)
+              store_own c e (set_co c (set_cend (Threw e) (resumed r AFinal (set_on t co))) s)
           | _, _ => Some (set_co c (resumed r ARun (set_on t co)) s)
           end
       | None => None
@@ -743,7 +747,7 @@ Definition step_g (rr : bool) (s : st) (e : ev) : option st :=
       match nth_error (cos s) c with
       | Some co =>
           match cst co, capt co with
-          | ARun, None => if Nat.eqb (on co) t then store_own c r (set_co c (set_cst AFinal co) s) else None
+          | ARun, None => if Nat.eqb (on co) t then store_own c r (set_co c (set_cend (Returned r) (set_cst AFinal co)) s) else None
           | _, _ => None
           end
       | None => None
@@ -783,7 +787,7 @@ Definition step_g (rr : bool) (s : st) (e : ev) : option st :=
       match dequeue x c s with
       | Some s1 =>
           match nth_error (cos s1) c with
-          | Some co => store_own c RStop (set_co c (set_cst AFinal (set_dropped true (set_on t co))) s1)
+          | Some co => store_own c RStop (set_co c (set_cst AFinal (set_cend Dropped (set_on t co))) s1)
           | None => None
           end
       | None => None
